@@ -133,6 +133,38 @@ func c51(c *Ctx) {
 		decs := instrsWhere(f, addN(-1))
 		c.Expect(len(decs) == 2, nil, f, "infos-released", "stop() does not decrement cluster and plugin infos (expected two loops)")
 		c.Expect(len(instrsWhere(f, addN(1))) == 0, nil, f, "no-increment-in-stop", "stop() increments a reference")
+		// acquire/release symmetry: the selector took one reference per entry of its clusters map and one
+		// per entry of its plugins map (when it was built); stop() must give back exactly those, i.e. the
+		// decremented infos are the values of a range over the same two maps
+		fCl := c.field(xres, "configSelector", "clusters")
+		fPl := c.field(xres, "configSelector", "plugins")
+		recvOf := func(in ssa.Instruction) ssa.Value {
+			call := in.(*ssa.Call)
+			if fa, ok := call.Call.Args[0].(*ssa.FieldAddr); ok {
+				return fa.X
+			}
+			return call.Call.Args[0]
+		}
+		build := c.fn(xres, "xdsResolver.newConfigSelector")
+		for _, side := range []struct {
+			fn   *ssa.Function
+			pred func(ssa.Instruction) bool
+			what string
+		}{{build, addN(1), "acquire"}, {f, addN(-1), "release"}} {
+			nc, np := 0, 0
+			for _, in := range instrsWhere(side.fn, side.pred) {
+				r := recvOf(in)
+				switch {
+				case RangeValueOf(FieldLoad(fCl))(r):
+					nc++
+				case RangeValueOf(FieldLoad(fPl))(r):
+					np++
+				default:
+					c.Expect(false, in, side.fn, side.what+"-per-map-entry", "a selector-level "+side.what+" of a cluster reference is not done once per entry of the selector's clusters/plugins map")
+				}
+			}
+			c.Expect(nc == 1 && np == 1, nil, side.fn, side.what+"-both-maps", "expected one "+side.what+" loop over clusters and one over plugins")
+		}
 		for _, in := range instrsWhere(f, func(in ssa.Instruction) bool {
 			return isCallTo(Callee(xres, "configSelector.sendNewServiceConfig"))(in) || isCallTo(ValueCall(AnyV))(in)
 		}) {
